@@ -336,28 +336,42 @@ func TestC37(t *testing.T) {
 	rec := ev.New("C37", "container-requests")
 	defer rec.Flush()
 	w := getWorld()
-	env, proxy := w.Member, w.MemberProxy
-	hs, err := env.Handlers()
-	if err != nil {
-		ev.Inconclusive("%v", err)
+	// two inner ring configurations on the same chain: chain metadata feature off / on
+	type side struct {
+		env   *irsetup.Env
+		proxy *neoproxy.Proxy
+		calls map[string]func(event.Event)
 	}
-	handler := func(name string) func(event.Event) {
-		for _, h := range hs {
-			if h.Proc == "container" && h.Name == name {
-				return h.Call
+	metaProxy, metaEnv, err := w.NewEnvWith(irchain.CommitteeKey(), func(o *irsetup.Options) { o.MetaEnabled = true })
+	if err != nil {
+		ev.Inconclusive("cannot attach the meta-enabled processors: %v", err)
+	}
+	defer metaProxy.Close()
+	defer metaEnv.Close()
+	sides := map[bool]*side{false: {env: w.Member, proxy: w.MemberProxy}, true: {env: metaEnv, proxy: metaProxy}}
+	for _, sd := range sides {
+		hs, err := sd.env.Handlers()
+		if err != nil {
+			ev.Inconclusive("%v", err)
+		}
+		sd.calls = map[string]func(event.Event){}
+		for _, n := range []string{"put", "create", "createV2", "remove", "putEACL", "setAttribute", "removeAttribute"} {
+			for _, h := range hs {
+				if h.Proc == "container" && h.Name == n {
+					sd.calls[n] = h.Call
+				}
+			}
+			if sd.calls[n] == nil {
+				ev.Inconclusive("container handler %s is not registered", n)
 			}
 		}
-		ev.Inconclusive("container handler %s is not registered", name)
-		return nil
-	}
-	calls := map[string]func(event.Event){}
-	for _, n := range []string{"put", "create", "createV2", "remove", "putEACL", "setAttribute", "removeAttribute"} {
-		calls[n] = handler(n)
 	}
 	approvals, misses := 0, 0
 
 	rapid.Check(t, func(t *rapid.T) {
 		kind := rapid.SampledFrom([]string{"put", "create", "createV2", "createV2+eACL", "remove", "putEACL", "setAttribute", "removeAttribute"}).Draw(t, "kind")
+		metaOn := rapid.Bool().Draw(t, "chainMetaFeature")
+		env, proxy, calls := sides[metaOn].env, sides[metaOn].proxy, sides[metaOn].calls
 		mode := rapid.SampledFrom([]string{"member", "member", "member", "member", "non-member", "lookup-error"}).Draw(t, "state")
 		a := genAuth(t)
 		height, err := w.Admin.Height()
@@ -375,12 +389,13 @@ func TestC37(t *testing.T) {
 		}
 
 		var (
-			evn       event.Event
-			req       irsetup.Request
-			contentOK = true
-			why       []string
-			authOK    bool
-			call      = calls[strings.TrimSuffix(kind, "+eACL")]
+			evn         event.Event
+			req         irsetup.Request
+			contentOK   = true
+			why         []string
+			authOK      bool
+			call        = calls[strings.TrimSuffix(kind, "+eACL")]
+			extraLabels []string
 		)
 		eaclPart := func(cnrID cid.ID, ownerIdx int, extendable bool) (*cntEvent.PutContainerEACLRequest, []byte, bool, bool) {
 			recs, hasSystem := genRecords(t)
@@ -402,22 +417,56 @@ func TestC37(t *testing.T) {
 			ownerIdx := rapid.IntRange(0, 1).Draw(t, "owner")
 			basic := rapid.SampledFrom([]acl.Basic{acl.PublicRWExtended, acl.PublicRW, acl.Private}).Draw(t, "basicACL")
 			policy := rapid.SampledFrom([]string{"REP 1", "REP 1", "REP 2 IN X CBF 1 SELECT 2 FROM * AS X", "EC 2/1", "REP 1 EC 2/1"}).Draw(t, "policy")
-			attrKind := rapid.SampledFrom([]string{"none", "none", "user", "lock-until", "forbidden-system", "meta"}).Draw(t, "attrs")
+			// 0-4 attributes in generated order: user, permitted system, forbidden system, chain-meta
 			var attrs [][2]string
-			switch attrKind {
-			case "user":
-				attrs = [][2]string{{"Purpose", "test"}}
-			case "lock-until":
-				attrs = [][2]string{{"__NEOFS__LOCK_UNTIL", fmt.Sprint(time.Now().Add(time.Hour).Unix())}}
-			case "forbidden-system":
-				attrs = [][2]string{{"__NEOFS__" + rapid.SampledFrom([]string{"FOO", "NAMEX", "name"}).Draw(t, "sysAttr"), "x"}}
-				contentOK = false
-				why = append(why, "forbidden system attribute")
-			case "meta":
-				attrs = [][2]string{{"__NEOFS__METAINFO_CONSISTENCY", "strict"}}
-				contentOK = false // the chain-metadata feature is off in this setup
-				why = append(why, "meta attribute with meta disabled")
+			var attrKinds []string
+			used := map[string]bool{}
+			for i, n := 0, rapid.SampledFrom([]int{0, 0, 1, 1, 2, 3, 4}).Draw(t, "nAttrs"); i < n; i++ {
+				ak := rapid.SampledFrom([]string{"user", "lock-until", "forbidden-system", "forbidden-system", "meta", "meta"}).Draw(t, "attr")
+				var kv [2]string
+				switch ak {
+				case "user":
+					kv = [2]string{rapid.SampledFrom([]string{"Purpose", "Owner", "Zone"}).Draw(t, "userAttr"), "test"}
+				case "lock-until":
+					kv = [2]string{"__NEOFS__LOCK_UNTIL", fmt.Sprint(time.Now().Add(time.Hour).Unix())}
+				case "forbidden-system":
+					kv = [2]string{"__NEOFS__" + rapid.SampledFrom([]string{"FOO", "NAMEX", "name", "METAINFO_CONSISTENCY2"}).Draw(t, "sysAttr"), "x"}
+				case "meta":
+					kv = [2]string{"__NEOFS__METAINFO_CONSISTENCY", rapid.SampledFrom([]string{"strict", "optimistic"}).Draw(t, "metaPolicy")}
+				}
+				if used[kv[0]] {
+					continue
+				}
+				used[kv[0]] = true
+				attrs = append(attrs, kv)
+				attrKinds = append(attrKinds, ak)
 			}
+			metaAt, forbiddenAfterMeta := -1, false
+			for i, ak := range attrKinds {
+				switch ak {
+				case "forbidden-system":
+					contentOK = false
+					why = append(why, "forbidden system attribute")
+					if metaAt >= 0 {
+						forbiddenAfterMeta = true
+					}
+				case "meta":
+					metaAt = i
+					if !metaOn {
+						contentOK = false
+						why = append(why, "meta attribute with the feature off")
+					}
+				}
+			}
+			attrLabel := "attrs:" + strings.Join(attrKinds, ",")
+			if len(attrKinds) == 0 {
+				attrLabel = "attrs:none"
+			}
+			extraLabels = append(extraLabels, map[bool]string{true: "meta-feature-on", false: "meta-feature-off"}[metaOn])
+			if forbiddenAfterMeta && metaOn {
+				extraLabels = append(extraLabels, "forbidden-system-attr-after-accepted-meta-attr")
+			}
+			_ = attrLabel
 			if policy == "REP 1 EC 2/1" {
 				contentOK = false
 				why = append(why, "REP+EC policy")
@@ -551,7 +600,7 @@ func TestC37(t *testing.T) {
 		}
 		member := mode == "member"
 		want := member && authOK && contentOK
-		labels := []string{kind, mode, a.label()}
+		labels := append([]string{kind, mode, a.label()}, extraLabels...)
 		if !contentOK {
 			labels = append(labels, "content-unacceptable")
 		}
